@@ -61,7 +61,8 @@ def run(ctx):
     L.quiet_logging()
     ctx.rule = ("(a) lifecycle scripts: auth_{password,publickey,interactive,none} calls interleaved at every point of "
                 "start_client / kex reply (valid or forged host-key signature) / NEWKEYS / SERVICE_ACCEPT / INFO_REQUEST; "
-                "(b) SSHClient.connect: {default, non-default port} x known_hosts {same key, different key same type, only "
+                "(b) SSHClient.connect through each entry point {password=, pkey=, auth_strategy=password source, "
+                "auth_strategy=private-key source}: {default, non-default port} x known_hosts {same key, different key same type, only "
                 "other key types, hashed entry, entry under the other port's name, none} x {Reject, AutoAdd, Warning, "
                 "custom accept, custom refuse}; Transport.connect(hostkey = same / other of same type / other type / "
                 "None). non-trivial = an auth call was made before the kex completed, the signature was forged, or the "
@@ -119,17 +120,20 @@ def run(ctx):
         "none": lambda name: [],
     }
     policies = ["reject", "autoadd", "warning", "custom-ok", "custom-no"]
+    entries_points = ["password", "pkey", "strategy-password", "strategy-pkey"]
     combos = []
     for port in (22, 2222):
         for vname in variants:
             for pol in policies:
-                combos.append((port, vname, pol))
+                for ep in entries_points:
+                    combos.append((port, vname, pol, ep))
     if not ctx.thorough:
-        keep = [c for c in combos if c[2] in ("reject", "autoadd")] + rng.sample(
-            [c for c in combos if c[2] not in ("reject", "autoadd")], 10)
+        # every (known_hosts variant, entry point) with a rejecting and an accepting policy, plus a random sample
+        keep = [c for c in combos if (c[0], c[2]) in ((22, "reject"), (2222, "autoadd"))]
+        keep += rng.sample([c for c in combos if c not in keep], 12)
         combos = keep
     reqs, cases = [], []
-    for port, vname, pol in combos:
+    for port, vname, pol, ep in combos:
         name = host if port == 22 else "[%s]:%d" % (host, port)
         other = "[%s]:%d" % (host, 2222) if port == 22 else host
         if vname == "other-port-name-only":
@@ -142,16 +146,17 @@ def run(ctx):
         known = "none" if not applicable else ",".join(key_tok(k) for k in applicable)
         reqs.append("sconn %s %s %d" % (known, key_tok(server_key), 1 if accepts else 0))
         reqs.append("name %s %d" % (hx(host.encode()), port))
-        cases.append((port, vname, pol, entries, name))
+        cases.append((port, vname, pol, entries, name, ep))
     replies = ctx.driver("C17", reqs)
-    for i, (port, vname, pol, entries, name) in enumerate(cases):
-        obs = G.run_ssh_client(host, port, entries, pol, server_key)
+    for i, (port, vname, pol, entries, name, ep) in enumerate(cases):
+        obs = G.run_ssh_client(host, port, entries, pol, server_key, ep)
+        ctx.dist("entry-point:" + ep)
         differs = vname not in ("same-key", "same-key-plus-other-types", "hashed-same-key")
-        ctx.case(("sconn", port, vname, pol), differs)
+        ctx.case(("sconn", port, vname, pol, ep), differs)
         ctx.dist("known_hosts:" + vname)
         ctx.dist("policy:" + pol)
         ctx.dist("outcome:" + obs["outcome"])
-        case = {"port": port, "known_hosts": vname, "policy": pol}
+        case = {"port": port, "known_hosts": vname, "policy": pol, "entry_point": ep}
         if replies is not None:
             if replies[2 * i] != obs["outcome"]:
                 ctx.disagree("SSHClient.connect decision", case, replies[2 * i], obs["outcome"])
@@ -163,8 +168,8 @@ def run(ctx):
         if not should_send and (obs["server_saw"] or obs["outcome"] == "authenticate"):
             ctx.fail("credentials-sent-to-unaccepted-server", case,
                      "outcome %s, server saw %r" % (obs["outcome"], obs["server_saw"]))
-        if should_send and not obs["server_saw_password"]:
-            ctx.disagree("harness: accepted server did not receive the password", case, "password", obs["outcome"])
+        if should_send and not obs["server_saw_credential"]:
+            ctx.disagree("harness: accepted server did not receive the credential", case, "credential", obs["outcome"])
         if G.PASSWORD.encode() in obs["raw"]:
             ctx.fail("secret-in-plaintext", case, "password in the client's raw output")
         if vname in ("none", "other-port-name-only") and pol.startswith("custom") and obs["policy_called"] != [name]:
@@ -204,7 +209,9 @@ META = {
               "dead transport, raises and sends nothing; a forged host-key signature ends the session. For the decision "
               "procedures of Transport.connect(hostkey=...) and SSHClient.connect: authentication is attempted only if the "
               "presented key equals the given key, resp. the known entry of the same key type, or the host is unknown and "
-              "the policy returned normally. Tied to transport.py/auth_handler.py/client.py by differential runs of a "
+              "the policy returned normally. SSHClient.connect has one host-key block in front of both the legacy and the auth_strategy flow; "
+              "the check drives password=, pkey= and auth_strategy= (password and private-key sources). "
+              "Tied to transport.py/auth_handler.py/client.py by differential runs of a "
               "gated real client (auth calls at every point of the handshake, forged signatures) and of SSHClient/"
               "Transport.connect over known_hosts variants x policies, on every check."),
     "note": ("Trusted: Lean kernel + 3 standard axioms; the gated harness. The model abstracts the key exchange to two "
